@@ -3,7 +3,7 @@
    and nothing else. *)
 From AK Require Import Base.Prelude Base.Sx Bytes.Text Bytes.FabHeader Bytes.BinFile
   Reader.Select Reader.BoxRead Reader.Level Plotfile.TextHeader Taste.Taste Writers.Colander
-  Array.Paint Mandoline.Plate Whip.Whip Pestle.Pestle.
+  Array.Paint Mandoline.Plate Whip.Whip Pestle.Pestle Point.PointQuery.
 
 Definition as_Zs := as_list as_Z.
 Definition as_optZ := as_opt as_Z.
@@ -332,6 +332,28 @@ Definition e_pestle (s : sx) : sx :=
   | _ => bad_request
   end.
 
+(* ---- C19: point query ----
+   request: (levels limit P) with levels = lists of (lo hi);
+   result: (0) raises | (1 lv box (num...) den) | (2) *)
+Definition dec_qbox (s : sx) : option qbox :=
+  match s with
+  | SL [lo; hi] => do lo <- as_Zs lo; do hi <- as_Zs hi; Some {| q_lo := lo; q_hi := hi |}
+  | _ => None
+  end.
+
+Definition e_point (s : sx) : sx :=
+  match s with
+  | SL [lvs; SZ limit; P] =>
+      req (do lvs <- as_list (as_list dec_qbox) lvs; do P <- as_Zs P; Some (lvs, P))
+          (fun '(lvs, P) =>
+             ok (match point_query lvs (Z.to_nat limit) P with
+                 | PRaises => SL [SZ 0]
+                 | PCase1 lv b num den => SL [SZ 1; SZ (Z.of_nat lv); SZ (Z.of_nat b); of_Zs num; SZ den]
+                 | PCase2 => SL [SZ 2]
+                 end))
+  | _ => bad_request
+  end.
+
 Definition entries : list (string * (sx -> sx)) :=
   [ ("getitem", e_getitem);
     ("iter_all", e_iter_all);
@@ -351,7 +373,8 @@ Definition entries : list (string * (sx -> sx)) :=
     ("colander", e_colander);
     ("plate", e_plate);
     ("whip", e_whip);
-    ("pestle", e_pestle)
+    ("pestle", e_pestle);
+    ("point", e_point)
   ]%string.
 
 Fixpoint find_entry (name : string) (l : list (string * (sx -> sx))) : option (sx -> sx) :=
